@@ -19,6 +19,9 @@ type Spec struct {
 	Run func(run *ev.Run, c int)
 	// Race: the thorough tier additionally runs RaceCases cases in the -race binary.
 	RaceCases func(tier string) []int
+	// DeathKey maps the log tail of a child that died without a result to a violation key, when such a death is
+	// itself the sanitizer's verdict (checkptr fault, race detector abort). Otherwise the death is inconclusive.
+	DeathKey func(logTail string) (string, bool)
 }
 
 var registry = map[string]*Spec{}
